@@ -370,6 +370,12 @@ fn main() {
                 }
             }
             OWNER_DONE.store(true, SeqCst);
+            if f10 == 2 {
+                // let the stalled stealer (MAYV_STALL=..:1000000000) come back and start waiting before the next push
+                while c.now() < 1_200_000_000 && finished2.load(SeqCst) < ns {
+                    c.yield_now();
+                }
+            }
             // wait for the stealers; a claimer that waits for slots beyond the tail is released by further pushes
             let mut spins = 0usize;
             let mut fillers = 0usize;
